@@ -3,7 +3,8 @@ C10 — proximals and solver building blocks are safe when `out` is aliased to t
 Property theorems only.  The programs are the statement-for-statement models of the `_call`
 bodies in `Model/ProxProg.lean`; every element-wise function, norm, projection and external
 call is a parameter (`Fns K`), `K` is an arbitrary type with arithmetic *notation* (no laws
-are used — the statements therefore also hold for IEEE floats, NaN and inf included).
+are used — the statements therefore also hold for IEEE floats, NaN and inf included; since
+/repo 82e7c58 `out.set_zero()` writes exact zeros, so `ProximalL2` needs no hypothesis either).
 -/
 import OdlModel.Model.ProxProg
 import OdlModel.Model.Call
@@ -11,6 +12,7 @@ import OdlModel.Lemmas.ProxProg
 import OdlModel.Lemmas.Call
 import OdlModel.Props.C03
 import Mathlib.Tactic.SplitIfs
+import Mathlib.Tactic.Tauto
 
 namespace OdlModel.C10
 open OdlModel.Prox
@@ -76,35 +78,16 @@ solvers apply in place), every flag combination (`g` given or not, `sigma` scala
 `lower/upper` present or not), every scalar type, every choice of the element-wise functions /
 norms / projections, every parameter value, every vector length and content, every junk:
 the aliased call `P(x, out=x)` leaves in `x` exactly what the non-aliased call writes to `out`.
-Hypotheses: a Boolean mask round-trips through its array representation (`hF`), and
-`0*a + 0*a = 0` (`hz`, true in every ring; it is what `out.set_zero()` — coded as
-`lincomb(0, out, 0, out)` — needs, and it is used by `ProximalL2` only, see
-`C10.alias_safe_ieee`). -/
+The only hypothesis is that a Boolean mask round-trips through its array representation
+(`hF`); no arithmetic law is used, so the statement holds verbatim for IEEE doubles with
+NaN/inf junk in `out` and in uninitialised temporaries. -/
 theorem C10.alias_safe {K : Type} [Add K] [Sub K] [Mul K] [Div K] [Neg K] [OfNat K 0] [OfNat K 1]
-    (F : Fns K) (hF : ∀ b, F.truthy (F.ofBool b) = b) (hz : ∀ a : K, 0 * a + 0 * a = 0)
-    (P : Par K) (id : ProxId) :
+    (F : Fns K) (hF : ∀ b, F.truthy (F.ofBool b) = b) (P : Par K) (id : ProxId) :
     AliasSafe (prog F P id) := by
   intro jk jk' m j
   cases id <;> (try rename_i a b) <;> (try cases a) <;> (try cases b) <;> (try rename_i a; cases a)
   all_goals
     simp [run, exec, prog, projL1, simplexStmt, l2Step, env0, Env.set, St.write, srcVals, cst, hF,
-      hz, ite_fst', ite_snd', ite_mem', ite_app']
-  all_goals (try funext i)
-  all_goals split_ifs
-  all_goals (try (simp))
-  all_goals simp_all
-
-/-- Every body except `ProximalL2` (whose `out.set_zero()` multiplies the old content of
-`out` by zero) is alias safe with NO algebraic hypothesis at all: the statement holds verbatim
-for IEEE doubles, with NaN/inf junk in `out` and in uninitialised temporaries. -/
-theorem C10.alias_safe_ieee {K : Type} [Add K] [Sub K] [Mul K] [Div K] [Neg K] [OfNat K 0]
-    [OfNat K 1] (F : Fns K) (hF : ∀ b, F.truthy (F.ofBool b) = b) (P : Par K) (id : ProxId)
-    (hid : ∀ g, id ≠ .l2 g) : AliasSafe (prog F P id) := by
-  intro jk jk' m j
-  cases id <;> (try rename_i a b) <;> (try cases a) <;> (try cases b) <;> (try rename_i a; cases a)
-  all_goals (try (exact absurd rfl (hid _)))
-  all_goals
-    simp [run, exec, prog, projL1, simplexStmt, env0, Env.set, St.write, srcVals, cst, hF,
       ite_fst', ite_snd', ite_mem', ite_app']
   all_goals (try funext i)
   all_goals split_ifs
@@ -116,12 +99,11 @@ uninitialised temporaries (`diff = domain.element()`): no body reads `out` or ju
 writing it. -/
 theorem C10.out_junk_independent {K : Type} [Add K] [Sub K] [Mul K] [Div K] [Neg K]
     [OfNat K 0] [OfNat K 1]
-    (F : Fns K) (hF : ∀ b, F.truthy (F.ofBool b) = b) (hz : ∀ a : K, 0 * a + 0 * a = 0)
-    (P : Par K) (id : ProxId)
+    (F : Fns K) (hF : ∀ b, F.truthy (F.ofBool b) = b) (P : Par K) (id : ProxId)
     (jk jk' : Nat → Vec K) (m : Nat → Vec K) (j j' : Vec K) :
     (run jk (prog F P id) 0 1 (fun b => if b = 1 then j else m b)).mem 1 =
     (run jk' (prog F P id) 0 1 (fun b => if b = 1 then j' else m b)).mem 1 := by
-  rw [← C10.alias_safe F hF hz P id jk jk m j, ← C10.alias_safe F hF hz P id jk jk' m j']
+  rw [← C10.alias_safe F hF P id jk jk m j, ← C10.alias_safe F hF P id jk jk' m j']
 
 /-- Frame: no body writes to its input `x` (when `x` is not `out`) nor to the closed-over
 data `g`, `sigma`, `lower`, `upper` — in the aliased and in the non-aliased call. -/
@@ -144,10 +126,10 @@ theorem C10.frame {K : Type} [Add K] [Sub K] [Mul K] [Div K] [Neg K] [OfNat K 0]
 this is where `alias_safe` enters the combinator theorem. -/
 theorem C10.prog_leaf_ok {K : Type} [Add K] [Sub K] [Mul K] [Div K] [Neg K] [OfNat K 0]
     [OfNat K 1] (F : Fns K) (hF : ∀ b, F.truthy (F.ofBool b) = b)
-    (hz : ∀ a : K, 0 * a + 0 * a = 0) (P : Par K) (id : ProxId) (jk : Nat → Vec K)
+    (P : Par K) (id : ProxId) (jk : Nat → Vec K)
     (d : Nat → Vec K) : LeafOK (Leaf.ofProg jk (prog F P id) d) := by
   refine ⟨fun h => absurd rfl h, fun _ s x y hx hy => ?_⟩
-  have hA := C10.alias_safe F hF hz P id
+  have hA := C10.alias_safe F hF P id
   refine ⟨by simp [Leaf.ofProg], ?_, ?_, by simp [Leaf.ofProg]⟩
   · simp only [Leaf.ofProg, write_mem_same]
     by_cases hxy : x = y
@@ -174,12 +156,14 @@ operators): for every expression tree, of any depth, whose leaves satisfy the le
 by `C10.prog_leaf_ok` every modelled proximal body does — the aliased call `op(x, out=x)`
 returns `x` holding exactly what the non-aliased call `op(x, out=y)` leaves in `y`, and
 neither writes any other existing object. -/
-theorem C10.alias_safe_tree {K : Type} [CommRing K] (jk jk' : Nat → Vec K) (e : Op K)
-    (h : AllOK e) (s : St K) (x y : Nat) (hx : x < s.next) (hy : y < s.next) :
+theorem C10.alias_safe_tree {K : Type} [Add K] [Mul K] [OfNat K 0] (hK : CommArith K)
+    (jk jk' : Nat → Vec K) (e : Op K)
+    (h : AllOK e) (hfn : e.fn = false) (s : St K) (x y : Nat) (hx : x < s.next)
+    (hy : y < s.next) :
     ∃ s1 s2, callI jk e x x s = .ok x s1 ∧ callI jk' e x y s = .ok y s2 ∧
       s1.mem x = s2.mem y ∧ (∀ b : Nat, b < s.next → b ≠ x → s1.mem b = s.mem b) := by
-  obtain ⟨s1, e1, v1, f1, _⟩ := C03.call_in_place jk e h s x x hx hx
-  obtain ⟨s2, e2, v2, _, _⟩ := C03.call_in_place jk' e h s x y hx hy
+  obtain ⟨s1, e1, v1, f1, _⟩ := C03.call_in_place hK jk e h hfn s x x hx hx
+  obtain ⟨s2, e2, v2, _, _⟩ := C03.call_in_place hK jk' e h hfn s x y hx hy
   exact ⟨s1, s2, e1, e2, by rw [v1, v2], f1⟩
 
 /-- Non-vacuity of `alias_safe_tree` with program leaves: `proximal_translation` of the L1
@@ -188,8 +172,111 @@ proximal, `Const(y) + ProxL1 ∘ (Id − Const(y))`, as a tree whose leaf is the
 example : AllOK (K := Int)
     (.vecsum (.comp (.leaf (Leaf.ofProg (fun _ _ => 0) (prog intFns intPar (.l1 false false))
         (fun _ _ => 0))) (.vecsum (.leaf (scalingLeaf 1)) (fun _ => -3))) (fun _ => 3)) :=
-  ⟨C10.prog_leaf_ok intFns (by intro b; cases b <;> simp [intFns]) (by intro a; simp) intPar _ _ _,
-   C03.scale_leaf_ok 1⟩
+  ⟨⟨C10.prog_leaf_ok intFns (by intro b; cases b <;> simp [intFns]) intPar _ _ _,
+    ⟨C03.scale_leaf_ok 1, rfl⟩⟩, rfl⟩
+
+/-- `combine_proximals` builds a `DiagonalOperator`; the solvers call it as `op(x, out=x)` on a
+product-space iterate. In-place loop of a block matrix whose blocks sit on the diagonal, at
+most one per row, with `out` the SAME tuple as `x`: every block is evaluated aliased on its
+own component, which no other block reads or writes. -/
+theorem C10.diagonal_loop_alias {K : Type} [Add K] [Mul K] [OfNat K 0] (hK : CommArith K)
+    (jk : Nat → Vec K) (m : Nat) (x : Nat → Nat)
+    (hxinj : ∀ i i' : Nat, i < m → i' < m → x i = x i' → i = i') :
+    ∀ (entries : List (Entry K)),
+      (∀ e ∈ entries, AllOK e.op ∧ e.op.fn = false ∧ e.row < m ∧ e.col = e.row) →
+      (entries.map (·.row)).Nodup →
+      ∀ (s : St K) (done : List Nat), (∀ i : Nat, i < m → x i < s.next) →
+      (∀ e ∈ entries, e.row ∉ done) →
+      ∃ done' s', psoLoopI jk x x entries done s = .ok done' s' ∧
+        (∀ e ∈ entries, s'.mem (x e.row) = den e.op (s.mem (x e.row))) ∧
+        (∀ b : Nat, b < s.next → (∀ e ∈ entries, b ≠ x e.row) → s'.mem b = s.mem b) ∧
+        (∀ i : Nat, i ∈ done' ↔ i ∈ done ∨ i ∈ entries.map (·.row)) ∧ s.next ≤ s'.next := by
+  intro entries
+  induction entries with
+  | nil =>
+    intro _ _ s done _ _
+    exact ⟨done, s, rfl, fun e he => by simp at he, fun _ _ _ => rfl, fun i => by simp, le_refl _⟩
+  | cons e rest ih =>
+    intro hent hnd s done hx hdone
+    obtain ⟨hop, hfn, hr, hc⟩ := hent e (by simp)
+    have hd : e.row ∉ done := hdone e (by simp)
+    simp only [List.map_cons, List.nodup_cons] at hnd
+    obtain ⟨s1, e1, v1, f1, n1⟩ := C03.call_in_place hK jk e.op hop hfn s (x e.col) (x e.row)
+      (by rw [hc]; exact hx _ hr) (hx _ hr)
+    simp only [psoLoopI, hd, if_false, e1]
+    have hrest : ∀ e' ∈ rest, e'.row ≠ e.row := fun e' he' h =>
+      hnd.1 (by rw [← h]; exact List.mem_map_of_mem he')
+    obtain ⟨done', s', es, vs, fs, ds, ns⟩ := ih (fun e' he' => hent e' (by simp [he'])) hnd.2 s1
+      (e.row :: done) (fun i hi => by have := hx i hi; omega)
+      (fun e' he' => by
+        simp only [List.mem_cons, not_or]
+        exact ⟨hrest e' he', hdone e' (by simp [he'])⟩)
+    refine ⟨done', s', es, ?_, ?_, ?_, by omega⟩
+    · intro e' he'
+      simp only [List.mem_cons] at he'
+      rcases he' with rfl | he'
+      · rw [fs _ (by have := hx _ hr; omega) (fun e'' he'' h =>
+            hrest e'' he'' (hxinj _ _ ((hent e'' (by simp [he''])).2.2.1) hr h.symm)), v1, hc]
+      · have hne : x e'.row ≠ x e.row := fun h =>
+          hrest e' he' (hxinj _ _ ((hent e' (by simp [he'])).2.2.1) hr h)
+        rw [vs e' he', f1 _ (hx _ ((hent e' (by simp [he'])).2.2.1)) hne]
+    · intro b hb hnb
+      rw [fs b (by omega) (fun e' he' => hnb e' (by simp [he'])), f1 b hb (hnb e (by simp))]
+    · intro i
+      rw [ds i]
+      simp only [List.mem_cons, List.map_cons]
+      tauto
+
+/-- `DiagonalOperator(P_0, …, P_{m-1})(x, out=x)` — the aliased call made by the solvers on the
+result of `combine_proximals`: component `i` of `x` ends up holding `⟦P_i⟧(x_i)`, exactly what
+the non-aliased call puts into `out_i` (`C03.pso_in_place`); nothing else is written. -/
+theorem C10.diagonal_alias_safe {K : Type} [Add K] [Mul K] [OfNat K 0] (hK : CommArith K)
+    (jk : Nat → Vec K) (ops : List (Op K)) (hops : ∀ op ∈ ops, AllOK op ∧ op.fn = false)
+    (x : Nat → Nat) (s : St K) (hx : ∀ i : Nat, i < ops.length → x i < s.next)
+    (hxinj : ∀ i i' : Nat, i < ops.length → i' < ops.length → x i = x i' → i = i') :
+    ∃ done s', psoI jk ops.length (diagonalEntries ops) x x s = .ok done s' ∧
+      (∀ i (hi : i < ops.length), s'.mem (x i) = den ops[i] (s.mem (x i))) ∧
+      (∀ b : Nat, b < s.next → (∀ i : Nat, i < ops.length → b ≠ x i) → s'.mem b = s.mem b) := by
+  have hmem : ∀ e ∈ diagonalEntries ops, ∃ i, ∃ hi : i < ops.length,
+      e = ⟨i, i, ops[i]⟩ := by
+    intro e he
+    simp only [diagonalEntries, List.mem_iff_getElem, List.length_zipWith, List.length_range,
+      Nat.min_self, List.getElem_zipWith, List.getElem_range] at he
+    obtain ⟨i, hi, rfl⟩ := he
+    exact ⟨i, hi, rfl⟩
+  have hrows : (diagonalEntries ops).map (·.row) = List.range ops.length := by
+    apply List.ext_getElem
+    · simp [diagonalEntries]
+    · intro i h1 h2
+      simp [diagonalEntries]
+  obtain ⟨done, s1, es, vs, fs, ds, _⟩ := C10.diagonal_loop_alias hK jk ops.length x hxinj
+    (diagonalEntries ops)
+    (fun e he => by
+      obtain ⟨i, hi, rfl⟩ := hmem e he
+      exact ⟨(hops _ (List.getElem_mem hi)).1, (hops _ (List.getElem_mem hi)).2, hi, rfl⟩)
+    (by rw [hrows]; exact List.nodup_range)
+    s [] hx (fun _ _ => by simp)
+  have hdone : ∀ i : Nat, i < ops.length → i ∈ done := fun i hi => by
+    rw [ds i, hrows]; simp [hi]
+  have hz : ∀ b, (zeroRows x ops.length done s1).mem b = s1.mem b := by
+    intro b
+    simp only [zeroRows]
+    rw [if_neg]
+    rintro ⟨i, hi, hnd, _⟩
+    exact hnd (hdone i hi)
+  refine ⟨done, zeroRows x ops.length done s1, by simp only [psoI, es], ?_, ?_⟩
+  · intro i hi
+    have hin : (⟨i, i, ops[i]⟩ : Entry K) ∈ diagonalEntries ops := by
+      simp only [diagonalEntries, List.mem_iff_getElem, List.length_zipWith, List.length_range,
+        Nat.min_self, List.getElem_zipWith, List.getElem_range]
+      exact ⟨i, hi, rfl⟩
+    rw [hz]
+    exact vs _ hin
+  · intro b hb hnb
+    rw [hz, fs b hb]
+    intro e he
+    obtain ⟨i, hi, rfl⟩ := hmem e he
+    exact hnb i hi
 
 /-- The theorem has teeth: `ProximalL1._call` WITHOUT its copy guard is not alias safe
 (1-element witness over ℤ: x = 5, σλ = 2: aliased result 0, correct result 4). -/
@@ -205,4 +292,4 @@ example : (run (fun _ _ => 0) (prog intFns intPar (.l1 false false)) 0 0 (fun _ 
   simp [run, exec, prog, env0, Env.set, St.write, srcVals, intFns, intPar]
 
 example : AliasSafe (prog intFns intPar .huber) :=
-  C10.alias_safe intFns (by intro b; cases b <;> simp [intFns]) (by intro a; simp) intPar .huber
+  C10.alias_safe intFns (by intro b; cases b <;> simp [intFns]) intPar .huber
